@@ -22,6 +22,7 @@ EXPLANATION = (
     "paths, and the UDP send_request closes in its finally when keep_alive is off; (R4) _ensure_lock closes on a changed loop, "
     "connection_lost / eof_received reach _close_transport, which tolerates RuntimeError from a closed loop. Observed open/close "
     "histories of real transports are not decided."
+    ' (R6, shared with C05.R3) _ensure_lock reuses the lock only after comparing the event loops; a new lock records the loop and closes the old transport.'
 )
 
 
